@@ -98,7 +98,8 @@ func transferState(fn *ssa.Function, param ssa.Value) (in, out map[*ssa.BasicBlo
 		for _, i := range b.Instrs {
 			if c, ok := i.(*ssa.Call); ok {
 				f := pdataCallee(c)
-				if f != nil && (f.Name() == "MoveTo" || f.Name() == "CopyTo") && len(c.Call.Args) > 0 && c.Call.Args[0] == param {
+				// the parameter itself, or a load of the cell it lives in when a nested closure captures it
+				if f != nil && (f.Name() == "MoveTo" || f.Name() == "CopyTo") && len(c.Call.Args) > 0 && (c.Call.Args[0] == param || core.Canon(c.Call.Args[0]) == param) {
 					gen[b] = true
 					moveKind[b] = f.Name()
 				}
@@ -153,7 +154,7 @@ func boolSummary(v ssa.Value, root ssa.Value, depth int) string {
 				if c, ok := x.X.(*ssa.Call); ok {
 					if f := pdataCallee(c); f != nil && f.Name() == "Len" {
 						r, _ := pdataChain(c)
-						if r == root {
+						if r == root || (r != nil && root != nil && core.Canon(r) == root) {
 							return "empty"
 						}
 					}
